@@ -373,26 +373,30 @@ class Program:
         return ('dynamic', ast.dump(expr)[:60])
 
 
-_local_store_cache = {}
+_local_store_cache = {}      # kept for callers that clear it; the cache itself lives on the FuncInfo objects
 
 
 def local_stores(f):
-    """Names bound (assigned / loop targets / with / except / comprehension excluded)
-    in function f's own body."""
-    k = id(f.node)
-    if k in _local_store_cache:
-        return _local_store_cache[k]
+    """Names bound (assigned / loop targets / with / except) in function f's own body."""
+    c = getattr(f, '_local_stores', None)
+    if c is not None and c[0] is f.node and c[1] == _generation[0]:
+        return c[2]
     s = set()
     for n in walk_no_nested(f.node):
         if isinstance(n, ast.Name) and isinstance(n.ctx, (ast.Store, ast.Del)):
             s.add(n.id)
-        elif isinstance(n, (ast.FunctionDef, ast.AsyncFunctionDef)):
-            pass
         elif isinstance(n, ast.ExceptHandler) and n.name:
             s.add(n.name)
-    # names declared global are not local
     for n in walk_no_nested(f.node):
         if isinstance(n, (ast.Global, ast.Nonlocal)):
             s -= set(n.names)
-    _local_store_cache[k] = s
+    f._local_stores = (f.node, _generation[0], s)
     return s
+
+
+_generation = [0]
+
+
+def invalidate_caches():
+    """call after the AST was modified in place (alpha-normalisation)"""
+    _generation[0] += 1
